@@ -18,4 +18,5 @@ var Checks = map[string]func(*core.Env){
 	"C14": C14,
 	"C06": C06,
 	"C10": C10,
+	"C08": C08,
 }
